@@ -19,7 +19,7 @@ LEVEL = "model_checking"
 RULE = (
     "quick: all pairs of G1(4,2) x UNMATCHED x {IoU,Dice,ASSD} x threshold classes and x MATCHED x decision in {none,IoU,Dice,ASSD} x threshold classes; "
     "G1(4,2) x 27 refs x UNMATCHED(all candidates eligible) x decision metric x threshold classes; G2(2,2,2) x 27 refs and binary G3(2,2,2) x 16 refs x SEMANTIC x "
-    "backend in {default,cc3d,scipy} x IoU threshold classes (+ Dice decision); RLE(2) volumes; one SEMANTIC evaluator (default backend) reused after a 3-D / 1-D input for G2(2,2,2) x 9 refs. thorough: G1(5,2)^2, G2(2,2,2)^2, G2(2,3,2) x 81, G3(2,2,2,1)^2, G3(2,2,3,1) x 32, RLE(3) with the same products. "
+    "backend in {default,cc3d,scipy} x IoU threshold classes (+ Dice decision); RLE(2) volumes; one SEMANTIC evaluator (default backend) reused after a 3-D / 1-D input for G2(2,2,2) x 9 refs; 5 / 16 / 17 / 33 instances (thorough 1..69) with overlaps 4/4, 3/4, 2/4 x input type. thorough: G1(5,2)^2, G2(2,2,2)^2, G2(2,3,2) x 81, G3(2,2,2,1)^2, G3(2,2,3,1) x 32, RLE(3) with the same products. "
     "non-trivial = both sides non-empty and at least one candidate pair; distinct by (arrays, input type)"
 )
 ASSUMPTIONS = [
@@ -47,8 +47,10 @@ def blocks(tier):
         for lo, hi in sc.ranges(sc.rle_count(2), 100):
             B.append(("rle", 2, lo, hi))
         B.append(("reuse", 9))
+        B.append(("many", (5, 16, 17, 33)))
     else:
         B.append(("reuse", 27))
+        B.append(("many", tuple(range(1, 70))))
         add("um", (5,), 2, None, 1)
         add("um", (2, 2), 2, None, 1)
         add("um", (2, 3), 2, 81, 1)
@@ -76,6 +78,11 @@ def run_block(block, acc):
         _, s, lo, hi = block
         for i in range(lo, hi):
             run_case({"kind": "rle", "s": s, "i": i}, acc)
+        return
+    if kind == "many":
+        for n in block[1]:
+            for itype in ("MATCHED", "UNMATCHED", "SEMANTIC"):
+                run_case({"kind": "many", "n": n, "itype": itype}, acc)
         return
     if kind == "reuse":
         n = sc.grid_count((2, 2), 2)
@@ -203,7 +210,26 @@ def _reuse_case(case, acc):
         acc.violation("C01:reused_evaluator:SEMANTIC", case, f"evaluator first used on a {case['first']} map, then pred={pred.tolist()} ref={ref.tolist()}: result tp/fp/fn={obs['tp']}/{obs['fp']}/{obs['fn']} n_pred={obs['num_pred_instances']} n_ref={obs['num_ref_instances']} is not an admissible result of the definitions")
 
 
+def _many_case(case, acc):
+    """n instances (more than the usual handful, also more than worker processes) with varying overlaps, judged by the reference model"""
+    n, itype = case["n"], case["itype"]
+    acc.case("many", n, itype)
+    ref = np.zeros(7 * n + 2, dtype=np.uint16)
+    pred = np.zeros(7 * n + 2, dtype=np.uint16)
+    for k in range(n):
+        lab = 1 if itype == "SEMANTIC" else k + 1
+        ref[7 * k + 1 : 7 * k + 5] = lab
+        lo = 7 * k + 1 + (k % 3)  # overlaps 4, 3, 2 of 4 voxels: IoU 1, 3/5, 1/3
+        pred[lo : lo + 4] = lab
+    matcher = None if itype == "MATCHED" else ["thr", "IOU", 0.5, False]
+    backend = "default" if itype == "SEMANTIC" else "none"
+    judge(acc, case, pred, ref, itype, matcher, backend, None, e2e.Model(pred, ref, itype, backend))
+    acc.nontriv("many", n, itype)
+
+
 def run_case(case, acc):
+    if case["kind"] == "many":
+        return _many_case(case, acc)
     if case["kind"] == "reuse":
         return _reuse_case(case, acc)
     pred, ref = arrays_of(case)
